@@ -13,7 +13,10 @@ reached state is judged against it:
   copy_fresh_id / copy_equal_content / copy_not_live
   copy_independent             editing the copy never changes the original and editing the
                                original never changes the copy (every edit of the alphabet,
-                               plus backup / edit / revert), in every distinct state
+                               plus backup / edit / revert), in every distinct state; the
+                               observation includes the backup slot and modified(), and after one
+                               of the two was reverted the other's revert must still restore the
+                               backup (both orders) - snapshots are deep copies, never aliases
 
 State is observed through get_state() (the property's observation point) *and* through an
 independent attribute-by-attribute view, so that a get_state/set_state pair that forgets
@@ -367,11 +370,13 @@ def strip(state, ignore_id):
 
 
 def snapshot(f, ignore_id):
-    return [strip(f.get_state(), ignore_id), view(f)]
+    # deep copies: a snapshot must not alias anything the flow (or its backup, or a copy) still holds
+    return [_copy.deepcopy(strip(f.get_state(), ignore_id)), view(f)]
 
 
 def full(f):
-    return [f.get_state(), view(f), f.live]
+    """everything observable incl. the backup slot, as an independent deep copy"""
+    return [_copy.deepcopy(f.get_state()), view(f), f.live, bool(f._backup)]
 
 
 def norm_ids(state):
@@ -580,23 +585,46 @@ class Spec:
         t.judge("copy_not_live", c.live is False, {"flow": kind, "original_live": f.live}, case, False, c.live)
 
         # --- independence, direction 1: edit the copy, the original must not change ---
+        # (edit_all ends with backup / edit / revert, so when a backup was carried over the copy is reverted here:
+        #  the original's state, its backup slot and its modified() answer must all survive that)
         self.edit_all(c, t)
-        full1 = full(f)
-        if full1 == full0:
+        full1, exc1 = call(full, f)
+        m1, excm = call(f.modified)
+        if exc1 is None and full1 == full0 and excm is None and m1 == m:
             t.ok("copy_independent")
         else:
             t.bad("copy_independent", {"flow": kind, "direction": "edit_copy", "edit": self.culprit(s, "edit_copy")},
-                  case, full0, full1)
+                  case, [full0, m], exc1 or excm or [full1, m1])
         # --- direction 2: edit the original (the scratch one), a copy taken before must not change ---
         if c2 is not None:
             c20, exc = call(full, c2)
+            mc0, _ = call(c2.modified)
             self.edit_all(f, t)
+            if g.snap is not None:
+                # the copy was reverted first (direction 1); the original's own revert must still restore its backup
+                post, excp = call(snapshot, f, g.is_copy)
+                ok = excp is None and post == g.snap
+                t.judge("revert_restores_backup", ok,
+                        {"flow": kind, "subject": "original_after_copy_reverted",
+                         "differs_in": "" if ok else (",".join(diff_keys(g.snap, post)) if post is not None else "exception")},
+                        case, g.snap, excp or post)
             c21, exc2 = call(full, c2)
-            if exc is None and exc2 is None and c20 == c21:
+            mc1, exc3 = call(c2.modified)
+            if exc is None and exc2 is None and exc3 is None and c20 == c21 and mc0 == mc1:
                 t.ok("copy_independent")
             else:
                 t.bad("copy_independent", {"flow": kind, "direction": "edit_original", "edit": self.culprit(s, "edit_original")},
-                      case, c20, exc or exc2 or c21)
+                      case, [c20, mc0], exc or exc2 or exc3 or [c21, mc1])
+            if g.snap is not None and c2._backup:
+                # ... and the other order: the original was reverted first, the copy's revert must still restore the carried backup
+                want = [strip(g.snap[0], True), g.snap[1]]
+                call(c2.revert)
+                post, excp = call(snapshot, c2, True)
+                ok = excp is None and post == want
+                t.judge("revert_restores_backup", ok,
+                        {"flow": kind, "subject": "copy_after_original_reverted",
+                         "differs_in": "" if ok else (",".join(diff_keys(want, post)) if post is not None else "exception")},
+                        case, want, excp or post)
 
         t.case(None, nontrivial=nontrivial, key=[kind, self.fingerprint(s)])
         if nontrivial and len(hist) >= 3 and len(t.samples) < 2:
